@@ -254,4 +254,15 @@ theorem packet_roundtrip (p : Packet) : Packet.fromJson p.toJson = .ok p := by
   simp only [bind, Except.bind, pure, Except.pure, Json.asStr, Json.asArr, dir_roundtrip, abuf_roundtrip]
   rw [mapM_roundtrip Field.toJson Field.fromJson fields (fun f _ => field_roundtrip f)]
 
+theorem header_roundtrip (h : HeaderDesc) : HeaderDesc.fromJson h.toJson = .ok h := by
+  obtain ⟨id, length, fields⟩ := h
+  unfold HeaderDesc.fromJson HeaderDesc.toJson
+  have g : ∀ k v, (Json.obj [("id", .str id), ("length", .num length), ("fields", .arr (fields.map Field.toJson))]).get? k = some v →
+      (Json.obj [("id", .str id), ("length", .num length), ("fields", .arr (fields.map Field.toJson))]).getD k = .ok v := by
+    intro k v hk; simp only [Json.getD, hk]; rfl
+  rw [g "id" (.str id) (by simp [Json.get?, List.find?]), g "length" (.num length) (by simp [Json.get?, List.find?]),
+      g "fields" (.arr (fields.map Field.toJson)) (by simp [Json.get?, List.find?])]
+  simp only [bind, Except.bind, pure, Except.pure, Json.asStr, Json.asNat, Json.asArr]
+  rw [mapM_roundtrip Field.toJson Field.fromJson fields (fun f _ => field_roundtrip f)]
+
 end Schc
